@@ -285,9 +285,11 @@ func (g *G) Expr(ty m.Ty, d int) *m.Node {
 	if ty == m.TBool {
 		iw = 1
 	}
-	switch pickW(g.t, "shape", 2, 8, 2, cw, fw, iw) {
+	switch pickW(g.t, "shape", 2, 8, 2, cw, fw, iw, iw) {
 	case 5:
-		return g.idiom(d)
+		return g.idiom(d, false)
+	case 6:
+		return g.idiom(d, true)
 	case 0:
 		return g.Leaf(ty)
 	case 2:
@@ -752,12 +754,51 @@ func (g *G) duplicateOperands(tree *m.Node) {
 // therefore target: range checks, guards, negated comparisons, De Morgan and absorption shapes,
 // trivial ifs, identity arithmetic under a comparison, a thing compared with itself, singleton
 // lists. Operands are leaves or small sub-expressions; the same variable occurs more than once.
-func (g *G) idiom(d int) *m.Node {
+func (g *G) idiom(d int, nest bool) *m.Node {
 	x := m.Var(g.varName(m.TInt))
 	p := m.Var(g.varName(m.TBool))
 	li := func() *m.Node { return g.Leaf(m.TInt) }
 	sub := func() *m.Node { return g.Expr(m.TBool, d-1) }
-	switch rapid.IntRange(0, 17).Draw(g.t, "idiom") {
+	which := 18
+	if !nest {
+		which = rapid.IntRange(0, 17).Draw(g.t, "idiom")
+	}
+	switch which {
+	case 18:
+		// a nest that ReduceNesting merges: every operand of the outer operator is a leaf or a group of
+		// the same kind; the groups hold arbitrary operands, and one of them is repeated in another group
+		and := rapid.Bool().Draw(g.t, "nest_and")
+		name := func() string {
+			if and {
+				return g.alias("and", "&", "&&")
+			}
+			return g.alias("or", "|", "||")
+		}
+		outer := m.Op(name())
+		var inner []*m.Node
+		for i, n := 0, rapid.IntRange(2, 4).Draw(g.t, "nest_n"); i < n; i++ {
+			if i > 0 && rapid.IntRange(0, 2).Draw(g.t, "nest_leaf") == 0 {
+				outer.Kids = append(outer.Kids, m.Var(g.varName(m.TBool)))
+				continue
+			}
+			grp := m.Op(name())
+			for k, kn := 0, rapid.IntRange(2, 3).Draw(g.t, "nest_k"); k < kn; k++ {
+				grp.Kids = append(grp.Kids, sub())
+			}
+			inner = append(inner, grp)
+			outer.Kids = append(outer.Kids, grp)
+		}
+		if len(inner) >= 2 && rapid.Bool().Draw(g.t, "nest_dup") {
+			from := inner[0].Kids[rapid.IntRange(0, len(inner[0].Kids)-1).Draw(g.t, "nest_from")]
+			for _, k := range inner[0].Kids { // prefer a call
+				if !k.IsLeaf() {
+					from = k
+				}
+			}
+			to := inner[len(inner)-1]
+			to.Kids[rapid.IntRange(0, len(to.Kids)-1).Draw(g.t, "nest_to")] = from.Clone()
+		}
+		return outer
 	case 0:
 		return m.Op(g.alias("and", "&&"), m.Op(g.alias(">=", "ge"), x, li()), m.Op(g.alias("<=", "le"), x.Clone(), li()))
 	case 1:
